@@ -93,6 +93,7 @@ func symbols(metric string) *sl.Symbols {
 		sl.Op{Name: "upd1,5(add vector)", Kind: "upd", Ids: []int{1, 5}, Docs: []sl.Doc{{prop: st[0]}, {prop: st[3]}}},
 		sl.Op{Name: "upd1,1(move then remove vector)", Kind: "upd", Ids: []int{1, 1}, Docs: []sl.Doc{{prop: st[5]}, {prop: "_delete"}}},
 		sl.Op{Name: "upd2,2(remove then set vector)", Kind: "upd", Ids: []int{2, 2}, Docs: []sl.Doc{{prop: "_delete"}, {prop: st[4]}}},
+		sl.Op{Name: "queries", Kind: "queries"},
 		sl.Op{Name: "del1", Kind: "del", Ids: []int{1}},
 		sl.Op{Name: "del2,3", Kind: "del", Ids: []int{2, 3}},
 	)
@@ -171,7 +172,7 @@ type quant struct {
 }
 
 func master(cfg *harness.Config, rep *harness.Report) {
-	rep.Rule = "breadth-first search over write histories (insert with and without the vector, move, duplicate position, remove/add the field, the same point twice in one update batch, delete, node-id reuse) x metric {euclidean, dot, cosine, haversine, hamming, jaccard} x quantiser {none, binary fixed threshold, binary learned (trigger 3), product (2x2, trigger 3)}, plus 96-dimensional vectors with a learned binary quantiser (two words per vector, thresholds that differ between the words) x cache state {warm unlimited, reopened cold before every query, disabled, 1-byte limit}; after every batch 4 query vectors x limit {1,2,75} x weight {nil,0.5,-2,0} x pre-filter {none, subset, empty, partly vectorless}; each answer must be exactly the k nearest admissible points under the float64 definition of the index distance (ties at the cut either way)"
+	rep.Rule = "breadth-first search over write histories (insert with and without the vector, move, duplicate position, remove/add the field, the same point twice in one update batch, delete, node-id reuse, a round of searches between two batches) x metric {euclidean, dot, cosine, haversine, hamming, jaccard} x quantiser {none, binary fixed threshold, binary learned (trigger 3), product (2x2, trigger 3)}, plus 96-dimensional vectors with a learned binary quantiser (two words per vector, thresholds that differ between the words) x cache state {warm unlimited, reopened cold before every query, disabled, 1-byte limit}; after every batch 4 query vectors x limit {1,2,75} x weight {nil,0.5,-2,0} x pre-filter {none, subset, empty, partly vectorless}; each answer must be exactly the k nearest admissible points under the float64 definition of the index distance (ties at the cut either way)"
 	rep.Assumptions = []string{"product quantiser: trigger threshold 3 instead of the HTTP layer's minimum of 1000 (same code path, training reachable within the bound); 2 sub-vectors x 2 centroids; centroids and centroid ids are read back from the bucket (k-means starts from a random point) and checked for consistency, the quantised distance is then the definition", "a learned threshold is read back from the bucket, not predicted", "float32 rounding tolerance 1e-4 relative"}
 	p := pool.New(pool.Options{CPUsPerWorker: 2, JobTimeout: 60 * time.Second})
 	if cfg.Replay != "" {
